@@ -82,6 +82,18 @@ REGISTRY["C11"] = {
     "assumptions": _AS_COMMON,
 }
 
+REGISTRY["C08"] = {
+    "modules": ["contracts.memory"],
+    "category": "other",
+    "technique": "contract-based deductive verification of the real code: MemoryZone/MemoryMap operations executed on symbolic addresses and payloads (z3 Int proxies), abstract view addr -> byte as ghost state, postcondition 'every read returns the last covering write' discharged on every path (every overlap/ordering configuration is a path)",
+    "level_text": "Bounded symbolic verification: for every enumerated history shape (<= 3 writes of bytes / constants / registers / compositions, sizes 1..8, both endiannesses, interleaved copy/restruct/shift, concrete and symbolic zones, merge) ALL write addresses, read addresses, payload bytes and register values are symbolic; the real insertion algorithm enumerates every overlap configuration by itself and each path's read is proved equal, byte for byte, to the last-write-wins oracle built from the history; the zone's representation invariant is proved after every operation.",
+    "level_note": "trusted: z3, CPython dispatch (bisect on proxies), symx engine/shims, specs/den.py. Bounded by history length (3) and by the payload kinds listed; longer histories are not covered.",
+    "design_ref": "DESIGN.md section 4 (C08)",
+    "explanation": "bounded symbolic verification of the memory zone algorithm: all addresses/overlaps symbolic, histories up to 3 writes",
+    "trusted_base": _TB + ["specs/den.py", "last-write-wins oracle in contracts/memory.py (built from the history)"],
+    "assumptions": _AS_COMMON,
+}
+
 NOT_APPLICABLE = {
     "C07": "the oracle is the behaviour of two external programs (binutils, LLVM): no contract on amoco's functions can state it without hand-writing a model of those decoders; a vendored table comparison is example-based testing, a different family",
 }
